@@ -224,8 +224,9 @@ Section Importer.
     end.
 
   (* ---- GFF3 _update_relations ---- *)
+  (* SELECT child FROM relations WHERE parent = ? AND level = 1 *)
   Definition children_of (rels : list rel) (p : str) : list str :=
-    map rel_child (filter (fun x => str_eqb (rel_parent x) p) rels).
+    map rel_child (filter (fun x => str_eqb (rel_parent x) p && (rel_level x =? 1)) rels).
 
   Definition has_linebreak (s : str) : bool := existsb (fun c => N.eqb c 10 || N.eqb c 13) s.
   Definition TABc : N := 9%N.
